@@ -1,5 +1,5 @@
 (* Composite correspondence driver (C09, C10, C11).
-   usage: composite_model [fix=0|1] [fuel=N] [cover=0|1]
+   usage: composite_model [fix=0|1] [fix11=0|1] [fuel=N] [cover=0|1]
    stdin: the output of harness/cmd/composite:
      CASE id family pool n name:style:exit:rk ...   SCRIPT json   E <event> ...   OUTCOME o   END
      M old new v          (check A, hasMembershipChanged observed through Reload)
@@ -9,6 +9,7 @@ open Model
 open Util
 
 let fix = ref false
+let fix11 = ref false
 let fuel = ref 20000
 let cover = ref true
 
@@ -86,7 +87,7 @@ let label_name (l : label) : string =
   | LRunCall -> "RunCall" | LReloadCall _ -> "ReloadCall" | LStopApi _ -> "StopApi" | LCancel -> "Cancel"
   | LState _ -> "State" | LRunBegin -> "RunBegin" | LToRunning -> "ToRunning" | LSelCtx -> "SelCtx"
   | LSelStop -> "SelStop" | LSelErr -> "SelErr" | LTransIf -> "TransIf" | LTearLock -> "TearLock"
-  | LToStopped -> "ToStopped" | LRunRet _ -> "RunRet"
+  | LToStopped -> "ToStopped" | LRunExit -> "RunExit" | LRunRet _ -> "RunRet"
   | LBootLock ORun -> "BootLock.run" | LBootLock _ -> "BootLock.reload"
   | LBootLaunch ORun -> "BootLaunch.run" | LBootLaunch _ -> "BootLaunch.reload"
   | LStopBegin ORun -> "StopBegin.run" | LStopBegin _ -> "StopBegin.reload"
@@ -162,7 +163,7 @@ let nparks = ref 0 and nblocked = ref 0 and nevents = ref 0 and nwit = ref 0
 
 let finish (c : case) =
   incr ncases;
-  let p = { pool = c.pool; fix_c09 = !fix } in
+  let p = { pool = c.pool; fix_c09 = !fix; fix_c11 = !fix11 } in
   let evl = List.rev c.evs in
   let evs = List.map fst evl in
   let n = List.length evs in
@@ -200,7 +201,7 @@ let pool4 = List.map (fun i -> { c_name = n_of_int i; c_stop = NonBlocking; c_ex
 
 let do_membership o nw v =
   incr nmem;
-  let p = { pool = pool4; fix_c09 = false } in
+  let p = { pool = pool4; fix_c09 = false; fix_c11 = !fix11 } in
   let cf l = List.map (fun x -> (x, N0)) (names_of l) in
   let m = membership_changed p (cf o) (cf nw) in
   if m then incr nmem_changed;
@@ -243,6 +244,7 @@ let () =
   Array.iter (fun a ->
       match String.split_on_char '=' a with
       | ["fix"; v] -> fix := (v = "1")
+      | ["fix11"; v] -> fix11 := (v = "1")
       | ["fuel"; v] -> fuel := int_of_string v
       | ["cover"; v] -> cover := (v = "1")
       | _ -> ()) Sys.argv;
